@@ -45,7 +45,7 @@ def aesthetics(flux, invvar, method='traditional'):
             newflux = flux.copy()
             goodpts = invvar > 0
             if goodpts.any():
-                newflux[~goodpts] = newflux[goodpts].mean()
+                newflux[badpts] = newflux[goodpts].mean()
         elif method == 'damp':
             l = 250  # damping length in pixels
             goodpts = invvar.nonzero()[0]
